@@ -1,4 +1,5 @@
 import WpModel.Drive.Loop
 import WpModel.Drive.Paginate
+import WpModel.Drive.Trace
 
-def main : IO Unit := Wp.Drive.runDriver [Wp.Drive.Paginate.handle]
+def main : IO Unit := Wp.Drive.runDriver [Wp.Drive.Paginate.handle, Wp.Drive.Trace.handle]
